@@ -82,7 +82,7 @@ def run_lengths(draw, n, max_run=6):
 
 
 @st.composite
-def group_columns(draw, n, levels, tag, cfg: Cfg, dividers=False, max_run=6):
+def group_columns(draw, n, levels, tag, cfg: Cfg, dividers=False, max_run=6, nulls=False):
     """Hierarchically sorted key columns: every prefix key is one contiguous run."""
     cols = [[None] * n for _ in range(levels)]
     counters = [0] * levels
@@ -92,8 +92,11 @@ def group_columns(draw, n, levels, tag, cfg: Cfg, dividers=False, max_run=6):
             return
         pos = lo
         for r in draw(run_lengths(hi - lo, max_run if level == levels - 1 else max(max_run, 8))):
-            if dividers and draw(st.integers(0, 99)) < 12:
+            roll = draw(st.integers(0, 99))
+            if dividers and roll < 12:
                 v = "-----"
+            elif nulls and roll >= 88:
+                v = None          # a null key is a value of its own
             else:
                 v = f"{tag}{level}:v{counters[level]}"
             counters[level] += 1
@@ -351,7 +354,7 @@ def table_section(draw, cfg: Cfg, sec_index=0, multi=False):
         body["subline_by"] = [names[subline_by[0]]]
         strat = "subline+page_by" if page_by else "subline"
     if group_by:
-        gc = draw(group_columns(n, len(group_by), "g", cfg, max_run=4))
+        gc = draw(group_columns(n, len(group_by), "g", cfg, max_run=4, nulls=cfg.nulls))
         for lvl, j in enumerate(group_by):
             cols[j] = {"name": names[j], "dtype": "str", "values": gc[lvl]}
         body["group_by"] = [names[j] for j in group_by]
